@@ -41,6 +41,10 @@ fn main() {
         println!("{}", c16::eval());
         return;
     }
+    if args.len() >= 3 && args[1] == "c18alias" {
+        println!("{}", c18::alias_eval(&args[2]));
+        return;
+    }
     if args.len() < 4 {
         eprintln!("usage: probe <c16|c17|c18|c20> <seed> <cases> [extra...]");
         std::process::exit(2);
